@@ -27,6 +27,7 @@ pub fn defs() -> Vec<ScenDef> {
         d("cvrace", cvrace),
         d("cqrace", cqrace),
         d("iorace", iorace),
+        d("iotrace", iotrace),
     ]
 }
 
@@ -481,6 +482,130 @@ fn iorace(x: &mut Exec) -> Res {
     grave.lock().unwrap().clear();
     if let Some(e) = errs.lock().unwrap().first() {
         return viol(format!("socket hand-off: {}", e));
+    }
+    Ok(())
+}
+
+/// timed reads in a tight request / answer loop (C18 "returns the data when it arrives in time"): the peer answers every
+/// request at once, the reader starts its timed read a random few micro-seconds after its request, so that the answer
+/// arrives at every distance from the read's first attempt, its registration and its re-check. A read may only report
+/// TimedOut if the answer was written less than 150 ms before that (a starved peer); otherwise the wake-up was lost.
+fn iotrace(x: &mut Exec) -> Res {
+    use std::os::unix::io::{FromRawFd, IntoRawFd};
+    let n = rounds(x, 12_000);
+    let tcp = x.rng.chance(2, 3);
+    let timeout_ms = 300u64;
+    x.timeout_used(Duration::from_millis(timeout_ms));
+    let errs = Arc::new(std::sync::Mutex::new(Vec::<String>::new()));
+    let answered_at: Arc<Vec<AtomicU64>> = Arc::new((0..n).map(|_| AtomicU64::new(0)).collect());
+    let t0 = std::time::Instant::now();
+    let ping_co = x.rng.chance(5, 6);
+    enum S {
+        T(may::net::TcpStream),
+        U(UnixStream),
+    }
+    impl S {
+        fn rd(&mut self, b: &mut [u8]) -> std::io::Result<usize> {
+            match self {
+                S::T(s) => s.read(b),
+                S::U(s) => s.read(b),
+            }
+        }
+        fn wr(&mut self, b: &[u8]) -> std::io::Result<()> {
+            match self {
+                S::T(s) => s.write_all(b),
+                S::U(s) => s.write_all(b),
+            }
+        }
+    }
+    let (a, b) = if tcp {
+        let l = std::net::TcpListener::bind(lo0()).map_err(|e| Fail::Inconclusive(format!("bind: {}", e)))?;
+        let c = std::net::TcpStream::connect(l.local_addr().unwrap()).map_err(|e| Fail::Inconclusive(format!("connect: {}", e)))?;
+        let (s, _) = l.accept().map_err(|e| Fail::Inconclusive(format!("accept: {}", e)))?;
+        c.set_nodelay(true).ok();
+        s.set_nodelay(true).ok();
+        let a = unsafe { may::net::TcpStream::from_raw_fd(c.into_raw_fd()) };
+        a.set_read_timeout(Some(Duration::from_millis(timeout_ms))).unwrap();
+        (S::T(a), S::T(unsafe { may::net::TcpStream::from_raw_fd(s.into_raw_fd()) }))
+    } else {
+        let (a, b) = UnixStream::pair().map_err(|e| Fail::Inconclusive(format!("pair: {}", e)))?;
+        a.set_read_timeout(Some(Duration::from_millis(timeout_ms))).unwrap();
+        (S::U(a), S::U(b))
+    };
+    let grave: Arc<std::sync::Mutex<Vec<S>>> = Default::default();
+    let (e1, g1, at1) = (errs.clone(), grave.clone(), answered_at.clone());
+    let mut r = x.rng.fork();
+    x.spawn("ping", ping_co, move |act| {
+        let mut s = a;
+        let mut buf = [0u8; 1];
+        'rounds: for i in 0..n {
+            act.call("write+timed read", i);
+            if s.wr(&[(i % 251) as u8]).is_err() {
+                e1.lock().unwrap().push("write failed".into());
+                break;
+            }
+            for _ in 0..r.below(1500) {
+                std::hint::spin_loop();
+            }
+            loop {
+                match s.rd(&mut buf) {
+                    Ok(1) if buf[0] == ((i + 1) % 251) as u8 => break,
+                    Err(e) if e.kind() == std::io::ErrorKind::TimedOut || e.kind() == std::io::ErrorKind::WouldBlock => {
+                        let now = t0.elapsed().as_micros() as u64;
+                        let ans = at1[i as usize].load(SeqCst);
+                        if ans != 0 && now.saturating_sub(ans) >= 150_000 {
+                            e1.lock().unwrap().push(format!("round {}: read with a {} ms time-out reported TimedOut although the answer had been written {} ms earlier (the bytes were in the socket all that time)", i, timeout_ms, now.saturating_sub(ans) / 1000));
+                            break 'rounds;
+                        }
+                        // the peer has not answered yet (or only just): a machine that starves it says nothing about may
+                    }
+                    other => {
+                        e1.lock().unwrap().push(format!("ping: round {} read {:?} byte {}", i, other.map_err(|e| e.kind()), buf[0]));
+                        break 'rounds;
+                    }
+                }
+            }
+            act.ret("write+timed read", i, 0);
+        }
+        if e1.lock().unwrap().is_empty() {
+            g1.lock().unwrap().push(s);
+        } else {
+            // let the peer see the end of the stream, it is blocked in its read
+            drop(s);
+        }
+    });
+    let (e2, g2) = (errs.clone(), grave.clone());
+    let pong_co = x.rng.chance(1, 2);
+    x.spawn("pong", pong_co, move |act| {
+        let mut s = b;
+        let mut buf = [0u8; 1];
+        for i in 0..n {
+            act.call("read+write", i);
+            match s.rd(&mut buf) {
+                Ok(1) if buf[0] == (i % 251) as u8 => {}
+                Ok(0) => break, // the ping side gave up
+                other => {
+                    e2.lock().unwrap().push(format!("pong: round {} read {:?} byte {}", i, other.map_err(|e| e.kind()), buf[0]));
+                    break;
+                }
+            }
+            if s.wr(&[((i + 1) % 251) as u8]).is_err() {
+                break;
+            }
+            answered_at[i as usize].store((t0.elapsed().as_micros() as u64).max(1), SeqCst);
+            act.ret("read+write", i, 0);
+        }
+        g2.lock().unwrap().push(s);
+    });
+    x.desc = format!("{} one-byte request/answer loop with a {} ms read time-out on the requesting side, {} rounds, ping={} pong={}", if tcp { "tcp" } else { "unix-stream" }, timeout_ms, n, if ping_co { "co" } else { "th" }, if pong_co { "co" } else { "th" });
+    let r = x.wait_all();
+    // whoever is left waits for the other side: let the sockets go so that the leaked actors end
+    if r.is_err() {
+        return r;
+    }
+    grave.lock().unwrap().clear();
+    if let Some(e) = errs.lock().unwrap().first() {
+        return Err(Fail::Suspect(format!("timed read: {}", e)));
     }
     Ok(())
 }
